@@ -431,7 +431,7 @@ def run(chk, P):
     typestate.c03(chk, P)
     import k4rules
     k4rules.c03(chk, P)
-    chk.trusted += ['clang 14 front end', 'libogg: ogg_stream_* on a cleared state fails without side effects']
+    chk.trusted += ['clang 14 front end', 'libogg: ogg_stream_* on a cleared state fails without side effects', 'libogg: ogg_stream_packetout/packetpeek return -1, 0 or 1 and write the packet only for 1; ogg_sync_pageseek writes the page only when it returns > 0; ogg_sync_reset does not move the buffer']
     return ('Typestate analysis of the OggVorbis_File handle (ready_state vs liveness of the decoder objects) with exact '
             'summaries of the internal helpers, error-discipline rules for fallible decode calls, and path rules for the open '
             'failure paths decide that no decoder object is used while cleared, failed set-up never reaches the accumulator, and '
